@@ -84,8 +84,9 @@ Definition run_pdu_a (op : Z) (a : args) : args :=
               (do r <- eof_of_args a;
                do b <- eof_pack (fst r);
                do p2 <- eof_unpack (b ++ lst 5 a);
-               do e <- eof_eqb p2 (fst r);
-               Ok ([b2z e] :: eof_fields p2 ++ [pack_res_a (eof_pack p2)]))
+               (* [1] / [0], or [2; class] when __eq__ itself raises *)
+               let e := match eof_eqb p2 (fst r) with Ok e => [b2z e] | Err x => [2; err_code x] end in
+               Ok (e :: eof_fields p2 ++ [pack_res_a (eof_pack p2)]))
   (* constructor, then a history of fault_location setter calls: fields, packet_len, pack twice *)
   | 1305 => ret (fun p => eof_fields p ++ [[eof_packet_len p]; pack_res_a (eof_pack p); pack_res_a (eof_pack p)])
               (do r <- eof_of_args a; eof_apply (fst r) (skipn 5 a))
@@ -136,6 +137,11 @@ Definition run_pdu_a (op : Z) (a : args) : args :=
   | 1329 => ret (fun r => [[fst r; snd r]])
               (do c <- conf_of_args (lst 0 a) (lst 1 a);
                do f <- fdir_new c DT_NONE 0; fdir_parse_fss f (lst 2 a) (int 3 0 a))
+  (* C04: K.unpack(octets xor error pattern) *)
+  | 1334 => ret eof_fields (eof_unpack (xor_bytes (lst 0 a) (lst 1 a)))
+  | 1335 => ret ack_fields (ack_unpack (xor_bytes (lst 0 a) (lst 1 a)))
+  | 1336 => ret prompt_fields (prompt_unpack (xor_bytes (lst 0 a) (lst 1 a)))
+  | 1337 => ret ka_fields (ka_unpack (xor_bytes (lst 0 a) (lst 1 a)))
   (* Spec side (independent oracle): the layouts of (conf fields, parameters) *)
   | 1330 => [[0]; eof_layout (hdr_conf_raw (lst 0 a) (lst 1 a)) (eof_params_of_args a)]
   | 1331 => [[0]; ack_layout (hdr_conf_raw (lst 0 a) (lst 1 a))
